@@ -12,9 +12,18 @@ def _observe(binp, cases_text):
     return C.jsonl(C.harness(binp, "c20", "run", input=cases_text))
 
 
+_INT = __import__("re").compile(r"-?\d{19,}")
+
+
+def _wrap64(s):
+    """MatchCount is a Go int: sums wrap modulo 2^64 (a history that merges a result into itself some 63 times gets there);
+    the model counts in Z. Both sides are compared modulo 2^64."""
+    return _INT.sub(lambda m: str((int(m.group(0)) + 2**63) % 2**64 - 2**63), s)
+
+
 def _mismatches(recs):
     outs = C.run_model("c20", [r["sx"] for r in recs])
-    return [(r, o) for r, o in zip(recs, outs) if r["obs"] != o]
+    return [(r, o) for r, o in zip(recs, outs) if r["obs"] != o and _wrap64(r["obs"]) != _wrap64(o)]
 
 
 def _shrink(binp, case):
